@@ -107,7 +107,8 @@ GEN = LEAN / "RxModel" / "Gen"
 
 
 # tie modules that need the compiler's own macro expansion of the crate (nightly `-Zunpretty=expanded`)
-EXPANDED_TIES = ("RxModel.GenTie.Subject", "RxModel.GenTie.SubjectThreads")
+EXPANDED_TIES = ("RxModel.GenTie.Subject", "RxModel.GenTie.SubjectThreads", "RxModel.GenTie.Behavior",
+                 "RxModel.GenTie.BehaviorThreads")
 
 
 def expanded_source():
